@@ -14,6 +14,8 @@ func init() {
 		c.Flush(false)
 		c05System(c)
 		c.Flush(false)
+		c05TokenRace(c)
+		c.Flush(false)
 		runHistories(c, c.N(1200, 30000), "gating", gatingCfg)
 	})
 	Register("C17", func(c *RunCtx) {
